@@ -162,7 +162,55 @@ pub fn feature_material(seed: u64) -> serde_json::Value {
         let wrapped = rng.bytes(32);
         let wk: LocalKey<B> = key_from_bytes(&wrapped).unwrap();
         let cost = if B::VER == 1 || B::VER == 3 { (3u64, 0, 1) } else { (8 * 1024, 1, 1) };
+        // byte strings offered as keys, with the FULL build's verdict: a reduced build must give the same verdicts
+        let mut offers_pub: Vec<Vec<u8>> = vec![pair.public.clone()];
+        let mut offers_sec: Vec<Vec<u8>> = vec![pair.secret.clone()];
+        let mut offers_loc: Vec<Vec<u8>> = vec![rng.bytes(32), rng.bytes(31), rng.bytes(33), rng.bytes(64)];
+        for _ in 0..40 {
+            offers_pub.push(rng.bytes(pair.public.len().min(64)));
+        }
+        for l in [0usize, 1, 31, 32, 33, 48, 49, 64, 97] {
+            offers_pub.push(rng.bytes(l));
+            offers_sec.push(rng.bytes(l));
+        }
+        if B::VER == 2 || B::VER == 4 {
+            // every non-canonical encoding of y (y >= p), with either sign bit, and x = 0 with the sign bit set
+            for low in 0xedu8..=0xff {
+                for top in [0x7fu8, 0xff] {
+                    let mut e = vec![0xffu8; 32];
+                    e[0] = low;
+                    e[31] = top;
+                    offers_pub.push(e);
+                }
+            }
+            let mut e = vec![0u8; 32];
+            e[0] = 1;
+            e[31] = 0x80;
+            offers_pub.push(e);
+            let mut e = vec![0xffu8; 32];
+            e[0] = 0xec;
+            offers_pub.push(e);
+            offers_pub.push(vec![0u8; 32]);
+            let mut mixed = pair.secret[..32].to_vec();
+            mixed.extend(rng.bytes(32));
+            offers_sec.push(mixed);
+        }
+        if B::VER == 3 {
+            use p384::elliptic_curve::sec1::ToEncodedPoint;
+            let pkp = p384::PublicKey::from_sec1_bytes(&pair.public).unwrap();
+            offers_pub.push(pkp.to_encoded_point(false).as_bytes().to_vec());
+            offers_pub.push(vec![0]);
+            let mut c = pair.public.clone();
+            c[0] = 5;
+            offers_pub.push(c);
+            offers_sec.push(vec![0u8; 48]);
+            offers_sec.push(vec![0xffu8; 48]);
+        }
+        let verdicts_pub: Vec<serde_json::Value> = offers_pub.iter().map(|b| json!({"hex": hex::encode(b), "ok": key_from_bytes::<B::V, Public>(b).is_ok()})).collect();
+        let verdicts_sec: Vec<serde_json::Value> = offers_sec.iter().map(|b| json!({"hex": hex::encode(b), "ok": key_from_bytes::<B::V, Secret>(b).is_ok()})).collect();
+        let verdicts_loc: Vec<serde_json::Value> = offers_loc.iter().map(|b| json!({"hex": hex::encode(b), "ok": key_from_bytes::<B::V, Local>(b).is_ok()})).collect();
         json!({
+            "offers_public": verdicts_pub, "offers_secret": verdicts_sec, "offers_local": verdicts_loc,
             "aad": hex::encode(&aad), "claims": hex::encode(&claims), "footer": hex::encode(&footer), "nonce": hex::encode(&nonce),
             "local_key": hex::encode(key_bytes(&lk)), "secret_key": hex::encode(&pair.secret), "public_key": hex::encode(&pair.public),
             "public_key_text": pk.to_string(),
